@@ -166,15 +166,42 @@ def counting(ctx):
         ctx.bad("C19.R1", f, lp, "the skip-ahead model no longer resets the "
                 "current run at a fiber boundary", text_="SkipAhead fiber reset")
     f = ctx.func(IX + "LeaderFollowerIntersector.addTraces")
-    src = "\n".join(text(s) for s in f.body).replace(" ", "")
-    dec = [n for n in f.own_nodes() if isinstance(n, ast.AugAssign)
-           and text(n.target) == "new_intersects" and isinstance(n.op, ast.Sub)
-           and text(n.value) == "1"]
-    okd = len(dec) == 1 and any(
-        (text(t).replace(" ", ""), pol) == ("self.started", False)
-        for t, pol in atomic_guards(dec[0])) and \
-        "self.started=True" in src and "new_intersects=len(traces[0])" in src and \
-        "self.num_intersects+=new_intersects" in src
+    # case by case on the started flag (sa/symcase.py): the counter grows by
+    # len(trace) once started, by len(trace) - 1 on the first call, which
+    # also sets the flag
+    from .. import symcase
+    from .c18 import poly
+
+    def net(started):
+        def decide(t):
+            if isinstance(t, ast.UnaryOp) and isinstance(t.op, ast.Not):
+                d_ = decide(t.operand)
+                return None if d_ is None else not d_
+            return started if symcase.norm(t) == "self.started" else None
+        outs = symcase.Evaluator(ctx, decide).run(f)
+        res = set()
+        for o in outs:
+            if o.opaque:
+                return None
+            tot = {}
+            flag = None
+            for tgt, op, val, st in o.stores:
+                if tgt == "self.num_intersects" and op in (ast.Add, ast.Sub):
+                    p_ = poly(ctx, f, val)
+                    if p_ is None:
+                        return None
+                    for k, v in p_.items():
+                        tot[k] = tot.get(k, 0) + (v if op is ast.Add else -v)
+                elif tgt == "self.started" and op is None:
+                    flag = symcase.norm(val)
+                else:
+                    return None
+            res.add((tuple(sorted((k, v) for k, v in tot.items() if v)), flag))
+        return res
+    n_ = ("len(traces[0])",)
+    okd = net(True) in ({(((n_, 1),), None)}, {(((n_, 1),), "True")}) and \
+        net(False) == {((((), -1), (n_, 1)), "True")}
+    dec = [f.node]
     if okd:
         ctx.ok("C19.R1", f, dec[0], "adds the trace length, subtracts the "
                "header exactly once")
